@@ -793,7 +793,11 @@ class CurvatureCorrection(darsia.BaseCorrection):
                     img.dtype
                 )
 
-        return np.squeeze(corrected_img)
+        # Remove the channel axis added above for scalar images, but keep spatial axes
+        # of extent one.
+        if corrected_img.shape[2] == 1:
+            return np.squeeze(corrected_img, axis=2)
+        return corrected_img
 
     def correct_metadata(self, metadata: dict = {}) -> dict:
         """Extract metadata from the config file.
